@@ -6,6 +6,7 @@ use mcx::{Ctx, Tier};
 
 mod util;
 
+mod c06;
 mod c14;
 
 type CheckFn = fn(&Ctx);
@@ -19,7 +20,10 @@ struct Check {
 }
 
 fn checks() -> Vec<Check> {
-    vec![Check { id: "C14", level: "model_checking", run: c14::run, replay: Some(c14::replay) }]
+    vec![
+        Check { id: "C06", level: "model_checking", run: c06::run, replay: Some(c06::replay) },
+        Check { id: "C14", level: "model_checking", run: c14::run, replay: Some(c14::replay) },
+    ]
 }
 
 fn main() {
